@@ -287,6 +287,9 @@ pub fn exec<T: Transactable + ReadDoc>(t: &mut T, call: &J) -> J {
             let toks: Vec<String> = call["toks"].as_array().map(|a| a.iter().filter_map(|t| t.as_str().map(String::from)).collect()).unwrap_or_default();
             done(t.update_text(&obj, enc::tokens_str(&toks)))
         }
+        "split_block" => done_obj(t.split_block(&obj, call["idx"].as_u64().unwrap_or(0) as usize)),
+        "join_block" => done(t.join_block(&obj, call["idx"].as_u64().unwrap_or(0) as usize)),
+        "replace_block" => done_obj(t.replace_block(&obj, call["idx"].as_u64().unwrap_or(0) as usize)),
         "update_spans" => {
             let spans = spans_from(&call["spans"], t.text_encoding());
             let r = t.update_spans(&obj, automerge::marks::UpdateSpansConfig::default(), spans);
@@ -482,6 +485,17 @@ pub fn gen(rng: &mut Rng, view: &J, prof: &Profile) -> J {
     if prof.bulk && rng.chance(1, 2) {
         let len = o["len"].as_u64().unwrap_or(0) as usize;
         return match ty {
+            // block markers directly (C03: split / join block), at valid and invalid positions
+            "text" if prof.spans && rng.chance(if o["text"].as_array().map(|a| a.iter().any(|t| t.as_str() == Some("objrepl"))).unwrap_or(false) { 3 } else { 2 }, 5) => {
+                let blocks: Vec<usize> = o["text"].as_array().map(|a| a.iter().enumerate().filter(|(_, t)| t.as_str() == Some("objrepl")).map(|(i, _)| i).collect()).unwrap_or_default();
+                let at_block = !blocks.is_empty() && rng.chance(2, 3);
+                let idx = if at_block { blocks[rng.below(blocks.len())] } else { rng.below(len + 2) };
+                match rng.below(4) {
+                    0 | 1 => json!({"fn":"split_block","obj":id,"idx":rng.below(len + 2)}),
+                    2 => json!({"fn":"join_block","obj":id,"idx":idx}),
+                    _ => json!({"fn":"replace_block","obj":id,"idx":idx}),
+                }
+            }
             "text" if prof.spans && rng.chance(1, 2) => json!({"fn":"update_spans","obj":id,"spans": rand_spans(rng, prof)}),
             "text" => json!({"fn":"update_text","obj":id,"toks": if rng.chance(1, 6) { vec![] } else { rand_toks(rng, prof, 5) }}),
             "list" => match rng.below(4) {
